@@ -55,7 +55,8 @@ def check_case(case, acc):
     fmt = case['fmt']
     key = case.get('key')
     fill = case.get('fill')
-    acc.case((fmt, case['pinlen'], case['panlen'], case['bg'], repr(case.get('dev')), key, fill, case.get('cls')),
+    acc.case((fmt, case['pinlen'], case['panlen'], case['bg'], repr(case.get('dev')), key, fill, case.get('cls'),
+              case.get('after_failed_call')),
              nontrivial=True, outcome='%s/pin%d' % (fmt, len(pin)))
     stub = RandStub()
     real = secrets.randbits
@@ -70,7 +71,25 @@ def check_case(case, acc):
         secrets.randbits = real
 
 
+def _poison(pinblock, key):
+    """calls that are expected to FAIL (data that is not a whole cipher block); what they leave behind must not
+    change any later valid call"""
+    for cls in (pinblock.Iso0TDESPinBlockWithVisaPVV, pinblock.Iso4AESPinBlockWithVisaPVV):
+        for data in (b'\x01' * 7, b'\x02' * 15, b'\x03' * 9):
+            for fn in ('decrypt', 'encrypt'):
+                try:
+                    getattr(cls, fn)(key, data)
+                except Exception:
+                    pass
+            try:
+                cls.from_enc_bytes(enc_pin_block=data, card_number='4000001234562', key=key)
+            except Exception:
+                pass
+
+
 def _run(case, acc, pinblock, pin, pan, fmt, key, fill, stub):
+    if case.get('after_failed_call') and key:
+        _poison(pinblock, key)
     if fmt == 'iso0':
         cls = pinblock.Iso0PinBlock
         if key:
@@ -167,6 +186,11 @@ def enumerate_cases(tier, seed):
                     if bg in ('seed', '9') or ki == 2:
                         cases.append(dict(base, fmt='iso4', key=key, fill=FILLS[(pl + nl + ki) % 5]))
                 cases.append(dict(base, fmt='iso4', key=TDES_KEYS[0], cls='tdes', fill=7))
+                if bg == 'seed':
+                    cases.append(dict(base, fmt='iso0', key=TDES_KEYS[(pl + nl) % len(TDES_KEYS)],
+                                      after_failed_call=True))
+                    cases.append(dict(base, fmt='iso4', key=AES_KEYS[(pl + nl) % len(AES_KEYS)], fill=9,
+                                      after_failed_call=True))
                 cases.append(dict(base, fmt='iso4', key=TDES_KEYS[4], cls='tdes', fill=None))
             # 1-position deviations on one background: every position x every digit
             base = {'pinlen': pl, 'panlen': nl, 'bg': '1234567890', 'seed': seed}
@@ -193,7 +217,7 @@ def enumerate_cases(tier, seed):
 
 def tasks(tier, seed):
     cs = enumerate_cases(tier, seed)
-    return [{'cases': ch} for ch in core.spread(cs, 64)]
+    return [{'cases': ch} for ch in core.chunks(cs, 64)]
 
 
 def run_task(task):
@@ -215,7 +239,8 @@ def describe(tier, seed):
                 'construction (pin_ref) for clear blocks, from_bytes returns the PIN, from-scratch FIPS 46-3 / FIPS 197 '
                 'references for ciphertexts, from_enc_bytes returns the PIN; secrets.randbits is replaced by a counter: '
                 'one 64-bit draw per new block when no fill is supplied, none when supplied, two blocks get different '
-                'fills.' % (len(TDES_KEYS), len(AES_KEYS), '3' if tier == 'quick' else '15'),
+                'fills. Some encrypted cases are preceded by calls that must fail (data that is not a whole cipher block): '
+                'what those leave behind must not change the valid call.' % (len(TDES_KEYS), len(AES_KEYS), '3' if tier == 'quick' else '15'),
         'assumptions': ['PIN and PAN are decimal digit strings', 'a supplied fill of 0 is outside the statement '
                         '(fills 1..2^64-1)', 'if the library draws randomness from another source than '
                         'secrets.randbits only freshness (two fills differ) is judged',
